@@ -31,11 +31,12 @@ TIERS = {
     # batches: (cases, length, scale, features)
     "quick": dict(mc_cfg="MC_Ledger_quick.cfg", mc_timeout=300,
                   batches=[(120, 10, "1", "default"), (30, 10, "2p64", "default"), (48, 8, "1", "sweep"),
-                           (30, 12, "1", "multi"), (2, 8, "1", "featsweep")]),
+                           (30, 12, "1", "multi"), (2, 8, "1", "featsweep"), (32, 8, "1", "impexp")]),
     "thorough": dict(mc_cfg="MC_Ledger_thorough.cfg", mc_timeout=3000,
                      batches=[(1500, 12, "1", "default"), (300, 12, "2p53", "default"), (300, 12, "2p63", "default"),
                               (300, 12, "2p64", "default"), (300, 12, "1e30", "default"), (480, 10, "prime", "sweep"),
-                              (400, 14, "1", "multi"), (16, 10, "1", "featsweep")]),
+                              (400, 14, "1", "multi"), (16, 10, "1", "featsweep"), (400, 10, "1", "impexp"),
+                              (100, 10, "2p64", "impexp")]),
 }
 
 # outcome mismatches that no tagged predicate explains are attributed by operation kind
@@ -183,6 +184,7 @@ def build_pipeline(tier, seed):
                 for c in cases:
                     c["case"] += base
                     c["batch"] = bi
+                    c["kind"] = feat
                 all_cases.extend(cases)
                 for pf in summ.get("projection", []):
                     pf["case"] += base
@@ -290,6 +292,8 @@ def evaluate(c, prop, d, extra_preds=()):
                 lines = load_lines(d)
             op = json.loads(lines[ln - 1])["op"]
             owner = KIND_OWNER.get(op.get("k"), None)
+        if p is None and cases.get(case, {}).get("kind") == "impexp":
+            owner = "C11"   # an unexplained outcome in an export/import/write-on-the-copy history is C11's
         if owner == prop or pred in extra_preds:
             mine.setdefault((pred, case), ln)
         else:
